@@ -89,6 +89,16 @@ def listIndex : List Nat → Nat → Option Nat
   | [], _ => none
   | y :: ys, x => if y = x then some 0 else (listIndex ys x).map (· + 1)
 
+/-- `sorted(xs)` for integers (stable insertion sort; stability is unobservable on integers) -/
+def insertNat (x : Nat) : List Nat → List Nat
+  | [] => [x]
+  | y :: ys => if x ≤ y then x :: y :: ys else y :: insertNat x ys
+def sortedNat (xs : List Nat) : List Nat := xs.foldr insertNat []
+def insertInt (x : Int) : List Int → List Int
+  | [] => [x]
+  | y :: ys => if x ≤ y then x :: y :: ys else y :: insertInt x ys
+def sortedInt (xs : List Int) : List Int := xs.foldr insertInt []
+
 /-- divisor of `//` and `%`: zero raises `ZeroDivisionError` -/
 def nonZero (n : Nat) : M Nat := if n = 0 then throw .zeroDivisionError else pure n
 def nonZeroZ (n : Int) : M Int := if n = 0 then throw .zeroDivisionError else pure n
